@@ -1084,3 +1084,459 @@ Proof.
     rewrite nth_error_upd_eq by exact Ht. cbn [pt_stage pwith_stage]. rewrite nth_error_upd_eq by exact Hc.
     eexists. split; [reflexivity|]. cbn. eexists. split; [apply nth_error_upd_eq; rewrite upd_length; exact Hc|reflexivity].
 Qed.
+
+(* =====================================================================================================
+   Part 5 — QuicTransport
+   ===================================================================================================== *)
+Definition qd_inflight (st : qdstage) : bool :=
+  match st with QdDialing | QdGot _ => true | _ => false end.
+
+Definition qcall_inv (nconns : nat) (dd : qcall) : Prop :=
+  (qd_stage dd = QdEnd -> qd_result dd <> None) /\
+  (qd_stage dd <> QdEnd -> qd_result dd = None) /\
+  (forall c, qd_stage dd = QdReady (Some c) -> c < nconns) /\
+  (forall c, qd_result dd = Some (Some c) -> c < nconns).
+
+Definition qtask_inv (nconns ncalls : nat) (k : qtask) : Prop :=
+  match qt_stage k with
+  | QsWait d => d < ncalls
+  | QsHas c _ => c < nconns
+  | QsDone => qt_res k <> None
+  | QsStart => True
+  end.
+
+Record QInv (s : sdq_state) : Prop := {
+  q_open  : forall c k, nth_error (sq_conns s) c = Some k -> qc_open k = true ->
+                        sq_cache s = Some c /\ sq_closed s = false;
+  q_call  : forall d, sq_call s = Some d -> sq_cache s = None /\ d < length (sq_calls s);
+  q_infl  : forall d dd, nth_error (sq_calls s) d = Some dd -> qd_inflight (qd_stage dd) = true -> sq_call s = Some d;
+  q_calls : Forall (qcall_inv (length (sq_conns s))) (sq_calls s);
+  q_tasks : Forall (qtask_inv (length (sq_conns s)) (length (sq_calls s))) (sq_tasks s)
+}.
+
+Lemma sdq_init_inv : QInv sdq_init.
+Proof.
+  constructor; cbn.
+  - intros c k E. destruct c; discriminate.
+  - intros d H. discriminate.
+  - intros d dd E. destruct d; discriminate.
+  - constructor.
+  - constructor.
+Qed.
+
+Lemma qcall_inv_mono n m dd : n <= m -> qcall_inv n dd -> qcall_inv m dd.
+Proof. intros H (A & B & C & D). repeat split; auto; intros c Hc; [specialize (C c Hc)|specialize (D c Hc)]; lia. Qed.
+
+Lemma qtask_inv_mono n m a b k : n <= m -> a <= b -> qtask_inv n a k -> qtask_inv m b k.
+Proof. unfold qtask_inv. destruct (qt_stage k); intros; auto; lia. Qed.
+
+Lemma sdq_io_fail_tasks s t k f :
+  nth_error (sq_tasks s) t = Some k ->
+  exists x, sdq_io_fail s t k f = sdq_set_task s t x /\
+            (qt_stage x = QsStart \/ (qt_stage x = QsDone /\ qt_res x <> None)).
+Proof.
+  intros E. unfold sdq_io_fail. destruct (qt_res k) eqn:R; [|destruct (_ && _)]; eexists; split; try reflexivity; cbn;
+    auto; right; split; auto; congruence.
+Qed.
+
+Lemma QInv_set_task s t x :
+  QInv s -> qtask_inv (length (sq_conns s)) (length (sq_calls s)) x -> QInv (sdq_set_task s t x).
+Proof. intros [A B C D E] Hx. constructor; cbn; auto. apply Forall_upd; auto. Qed.
+
+Theorem sdq_step_inv s l s' : QInv s -> sdq_step s l = Some s' -> QInv s'.
+Proof.
+  intros HI Hs. pose proof HI as [A B C D E]. destruct l; cbn in Hs.
+  - (* SqSpawn *) inversion Hs; subst. constructor; cbn; auto. apply Forall_snoc; [solve [auto]|]. exact I.
+  - (* SqGet *)
+    destruct (nth_error (sq_tasks s) t) as [k|] eqn:Ek; [|discriminate].
+    destruct (qt_stage k) eqn:Sk; try discriminate.
+    destruct (sq_closed s) eqn:Cl.
+    { inversion Hs; subst. apply QInv_set_task; auto. unfold qtask_inv; cbn. destruct (qt_res k); cbn; congruence. }
+    assert (Hjoin : forall x, (match sq_call s with
+              | Some d => Some {| sq_closed := false; sq_cache := None; sq_call := Some d; sq_conns := sq_conns s;
+                                  sq_calls := sq_calls s; sq_tasks := upd (sq_tasks s) t (qwith_stage k (QsWait d)) |}
+              | None => Some {| sq_closed := false; sq_cache := None; sq_call := Some (length (sq_calls s)); sq_conns := sq_conns s;
+                                sq_calls := sq_calls s ++ [{| qd_stage := QdDialing; qd_result := None |}];
+                                sq_tasks := upd (sq_tasks s) t (qwith_stage k (QsWait (length (sq_calls s)))) |}
+              end) = Some x ->
+            (forall c k0, nth_error (sq_conns s) c = Some k0 -> qc_open k0 = true -> False) -> QInv x).
+    { intros x Hx Hdead. destruct (sq_call s) as [d|] eqn:Ca; inversion Hx; subst; clear Hx.
+      - destruct (B d eq_refl) as [_ Hd]. constructor; cbn.
+        + intros c k0 E0 O0. exfalso; eauto.
+        + intros d' Hd'. inversion Hd'; subst. auto.
+        + exact C.
+        + exact D.
+        + apply Forall_upd; [solve [auto]|]. unfold qtask_inv; cbn. exact Hd.
+      - constructor; cbn.
+        + intros c k0 E0 O0. exfalso; eauto.
+        + intros d' Hd'. inversion Hd'; subst. split; auto. rewrite app_length; cbn; lia.
+        + intros d dd Ed Hin. destruct (Nat.lt_ge_cases d (length (sq_calls s))) as [Hlt|Hge].
+          * rewrite nth_error_app1 in Ed by exact Hlt. specialize (C _ _ Ed Hin). congruence.
+          * rewrite nth_error_app2 in Ed by exact Hge. destruct (d - length (sq_calls s)) as [|n] eqn:En; [|destruct n; discriminate].
+            f_equal. lia.
+        + apply Forall_snoc; [solve [auto]|]. unfold qcall_inv; cbn. repeat split; intros; congruence.
+        + apply Forall_upd.
+          * eapply Forall_impl; [|exact E]. intros k0. apply qtask_inv_mono; auto. rewrite app_length; lia.
+          * unfold qtask_inv; cbn. rewrite app_length; cbn; lia. }
+    destruct (sq_cache s) as [c|] eqn:Cc.
+    + destruct (sdq_conn_open s c) eqn:Oc.
+      * inversion Hs; subst. apply QInv_set_task; auto. unfold qtask_inv; cbn.
+        unfold sdq_conn_open in Oc. destruct (nth_error (sq_conns s) c) eqn:Ec; [|discriminate]. eapply nth_error_some_lt; eauto.
+      * apply Hjoin; [exact Hs|]. intros c' k0 E0 O0. destruct (A _ _ E0 O0) as [H1 _]. inversion H1; subst c'.
+        unfold sdq_conn_open in Oc. rewrite E0 in Oc. congruence.
+    + apply Hjoin; [exact Hs|]. intros c' k0 E0 O0. destruct (A _ _ E0 O0) as [H1 _]. discriminate.
+  - (* SqDialOk *)
+    destruct (nth_error (sq_calls s) d) as [dd|] eqn:Ed; [|discriminate].
+    destruct (qd_stage dd) eqn:Sd; try discriminate. inversion Hs; subst.
+    pose proof (Forall_nth_error _ _ _ _ D Ed) as (D1 & D2 & D3 & D4).
+    constructor; cbn; rewrite ?upd_length.
+    + exact A.
+    + exact B.
+    + intros d' dd' Ed' Hin. rewrite nth_error_upd in Ed'. destruct (Nat.eqb_spec d d') as [<-|]; cbn [andb] in Ed'.
+      * apply (C _ _ Ed). now rewrite Sd.
+      * eapply C; eauto.
+    + apply Forall_upd; [exact D|]. unfold qcall_inv; cbn. repeat split; intros; try congruence; try (apply D2; congruence); eauto.
+    + exact E.
+  - (* SqDialFail *)
+    destruct (nth_error (sq_calls s) d) as [dd|] eqn:Ed; [|discriminate].
+    destruct (qd_stage dd) eqn:Sd; try discriminate. inversion Hs; subst.
+    pose proof (Forall_nth_error _ _ _ _ D Ed) as (D1 & D2 & D3 & D4).
+    constructor; cbn; rewrite ?upd_length.
+    + exact A.
+    + exact B.
+    + intros d' dd' Ed' Hin. rewrite nth_error_upd in Ed'. destruct (Nat.eqb_spec d d') as [<-|]; cbn [andb] in Ed'.
+      * apply (C _ _ Ed). now rewrite Sd.
+      * eapply C; eauto.
+    + apply Forall_upd; [exact D|]. unfold qcall_inv; cbn. repeat split; intros; try congruence; try (apply D2; congruence); eauto.
+    + exact E.
+  - (* SqFinish *)
+    destruct (nth_error (sq_calls s) d) as [dd|] eqn:Ed; [|discriminate].
+    destruct (qd_stage dd) eqn:Sd; try discriminate.
+    pose proof (Forall_nth_error _ _ _ _ D Ed) as (D1 & D2 & D3 & D4).
+    assert (Hcall : sq_call s = Some d) by (apply (C _ _ Ed); now rewrite Sd).
+    destruct (B _ Hcall) as [Hcache Hdlt].
+    assert (Hother : forall d' dd', d <> d' -> nth_error (sq_calls s) d' = Some dd' -> qd_inflight (qd_stage dd') = false).
+    { intros d' dd' Hne Ed'. destruct (qd_inflight (qd_stage dd')) eqn:Hin; auto. specialize (C _ _ Ed' Hin). congruence. }
+    assert (Hinfl : forall st x d' dd', qd_inflight st = false ->
+               nth_error (upd (sq_calls s) d {| qd_stage := st; qd_result := x |}) d' = Some dd' ->
+               qd_inflight (qd_stage dd') = true -> None = Some d').
+    { intros st x d' dd' Hst Ed' Hin. rewrite nth_error_upd in Ed'. destruct (Nat.eqb_spec d d') as [<-|Hne]; cbn [andb] in Ed'.
+      - apply Nat.ltb_lt in Hdlt. rewrite Hdlt in Ed'. inversion Ed'; subst. cbn in Hin. congruence.
+      - rewrite (Hother _ _ Hne Ed') in Hin. discriminate. }
+    assert (Hnone : sq_closed s = false -> forall c k0, nth_error (sq_conns s) c = Some k0 -> qc_open k0 = false).
+    { intros _ c k0 E0. destruct (qc_open k0) eqn:O0; auto. destruct (A _ _ E0 O0). congruence. }
+    destruct (sq_closed s) eqn:Cl; inversion Hs; subst; clear Hs.
+    + constructor; cbn; rewrite ?upd_length.
+      * intros c k0 E0 O0. destruct (A _ _ E0 O0). congruence.
+      * discriminate.
+      * intros d' dd' Ed' Hin. eapply Hinfl; [|exact Ed'|exact Hin]. reflexivity.
+      * apply Forall_upd; [exact D|]. unfold qcall_inv; cbn. repeat split; intros; try congruence; try (apply D2; congruence); eauto.
+      * exact E.
+    + specialize (Hnone eq_refl). destruct ok.
+      * constructor; cbn; rewrite ?upd_length, ?app_length; cbn.
+        -- intros c k0 E0 O0. destruct (Nat.lt_ge_cases c (length (sq_conns s))) as [Hlt|Hge].
+           ++ rewrite nth_error_app1 in E0 by exact Hlt. rewrite (Hnone _ _ E0) in O0. discriminate.
+           ++ rewrite nth_error_app2 in E0 by exact Hge. destruct (c - length (sq_conns s)) as [|n] eqn:En; [|destruct n; discriminate].
+              split; auto. f_equal. lia.
+        -- discriminate.
+        -- intros d' dd' Ed' Hin. eapply Hinfl; [|exact Ed'|exact Hin]. reflexivity.
+        -- apply Forall_upd.
+           ++ eapply Forall_impl; [|exact D]. intros x. apply qcall_inv_mono. lia.
+           ++ unfold qcall_inv; cbn. repeat split; intros; try congruence; try (apply D2; congruence).
+              ** inversion H; subst. lia.
+              ** specialize (D4 _ H). lia.
+        -- eapply Forall_impl; [|exact E]. intros x. apply qtask_inv_mono; lia.
+      * constructor; cbn; rewrite ?upd_length.
+        -- intros c k0 E0 O0. rewrite (Hnone _ _ E0) in O0. discriminate.
+        -- discriminate.
+        -- intros d' dd' Ed' Hin. eapply Hinfl; [|exact Ed'|exact Hin]. reflexivity.
+        -- apply Forall_upd; [exact D|]. unfold qcall_inv; cbn. repeat split; intros; try congruence; try (apply D2; congruence); eauto.
+        -- exact E.
+  - (* SqNotify *)
+    destruct (nth_error (sq_calls s) d) as [dd|] eqn:Ed; [|discriminate].
+    pose proof (Forall_nth_error _ _ _ _ D Ed) as (D1 & D2 & D3 & D4).
+    assert (Hinfl : forall x d' dd', nth_error (upd (sq_calls s) d {| qd_stage := QdEnd; qd_result := x |}) d' = Some dd' ->
+                       qd_inflight (qd_stage dd') = true -> sq_call s = Some d').
+    { intros x d' dd' Ed' Hin. rewrite nth_error_upd in Ed'. destruct (Nat.eqb_spec d d') as [<-|Hne]; cbn [andb] in Ed'.
+      - destruct (d <? length (sq_calls s)); [inversion Ed'; subst; discriminate|]. eapply C; eauto.
+      - eapply C; eauto. }
+    destruct (qd_stage dd) eqn:Sd; try discriminate; inversion Hs; subst; clear Hs.
+    + (* late *)
+      destruct ok.
+      * constructor; cbn; rewrite ?upd_length, ?app_length; cbn.
+        -- intros c k0 E0 O0. destruct (Nat.lt_ge_cases c (length (sq_conns s))) as [Hlt|Hge].
+           ++ rewrite nth_error_app1 in E0 by exact Hlt. eauto.
+           ++ rewrite nth_error_app2 in E0 by exact Hge. destruct (c - length (sq_conns s)) as [|n]; [|destruct n; discriminate].
+              inversion E0; subst. discriminate.
+        -- exact B.
+        -- apply Hinfl.
+        -- apply Forall_upd.
+           ++ eapply Forall_impl; [|exact D]. intros x. apply qcall_inv_mono. lia.
+           ++ unfold qcall_inv; cbn. repeat split; intros; congruence.
+        -- eapply Forall_impl; [|exact E]. intros x. apply qtask_inv_mono; lia.
+      * constructor; cbn; rewrite ?upd_length.
+        -- exact A.
+        -- exact B.
+        -- apply Hinfl.
+        -- apply Forall_upd; [exact D|]. unfold qcall_inv; cbn. repeat split; intros; congruence.
+        -- exact E.
+    + constructor; cbn; rewrite ?upd_length.
+      * exact A.
+      * exact B.
+      * apply Hinfl.
+      * apply Forall_upd; [exact D|]. unfold qcall_inv; cbn. repeat split; intros; try congruence.
+        inversion H; subst. apply D3. reflexivity.
+      * exact E.
+  - (* SqWake *)
+    destruct (nth_error (sq_tasks s) t) as [k|] eqn:Ek; [|discriminate].
+    destruct (qt_stage k) eqn:Sk; try discriminate.
+    destruct (nth_error (sq_calls s) d) as [dd|] eqn:Ed; [|discriminate].
+    pose proof (Forall_nth_error _ _ _ _ D Ed) as (D1 & D2 & D3 & D4).
+    destruct (qd_result dd) as [[c|]|] eqn:R; try discriminate; inversion Hs; subst; apply QInv_set_task; auto;
+      unfold qtask_inv; cbn; [apply D4; reflexivity|destruct (qt_res k); cbn; congruence].
+  - (* SqIoOk *)
+    destruct (nth_error (sq_tasks s) t) as [k|] eqn:Ek; [|discriminate].
+    destruct (qt_stage k) eqn:Sk; try discriminate. destruct (sdq_conn_open s c); [|discriminate].
+    inversion Hs; subst. apply QInv_set_task; auto. unfold qtask_inv; cbn. destruct (qt_res k); cbn; congruence.
+  - (* SqIoClosed *)
+    destruct (nth_error (sq_tasks s) t) as [k|] eqn:Ek; [|discriminate].
+    destruct (qt_stage k) eqn:Sk; try discriminate. destruct (sdq_conn_open s c); [discriminate|].
+    inversion Hs; subst. destruct (sdq_io_fail_tasks s t k fresh Ek) as (x & -> & Hx).
+    apply QInv_set_task; auto. unfold qtask_inv. destruct Hx as [->|[-> Hr]]; auto.
+  - (* SqIoPeerErr *)
+    destruct (nth_error (sq_tasks s) t) as [k|] eqn:Ek; [|discriminate].
+    destruct (qt_stage k) eqn:Sk; try discriminate.
+    inversion Hs; subst. destruct (sdq_io_fail_tasks s t k fresh Ek) as (x & -> & Hx).
+    apply QInv_set_task; auto. unfold qtask_inv. destruct Hx as [->|[-> Hr]]; auto.
+  - (* SqPeerDead *)
+    destruct (nth_error (sq_conns s) c) as [k0|] eqn:Ec; [|discriminate]. inversion Hs; subst.
+    constructor; cbn; rewrite ?upd_length.
+    + intros c' k1 E1 O1. rewrite nth_error_upd in E1. destruct (Nat.eqb_spec c c') as [<-|]; cbn [andb] in E1.
+      * destruct (c <? length (sq_conns s)); [inversion E1; subst; discriminate|eauto].
+      * eauto.
+    + exact B.
+    + exact C.
+    + exact D.
+    + exact E.
+  - (* SqCancel *)
+    destruct (nth_error (sq_tasks s) t) as [k|] eqn:Ek; [|discriminate].
+    destruct (qt_stage k) eqn:Sk; inversion Hs; subst; apply QInv_set_task; auto; unfold qtask_inv; cbn; auto;
+      destruct (qt_res k); cbn; congruence.
+  - (* SqClose *)
+    destruct (sq_closed s) eqn:Cl; inversion Hs; subst; [exact HI|].
+    assert (Hlen : length (match sq_cache s with Some c => upd (sq_conns s) c {| qc_open := false |} | None => sq_conns s end)
+                   = length (sq_conns s)) by (destruct (sq_cache s); [apply upd_length|reflexivity]).
+    constructor; cbn; rewrite ?Hlen.
+    + intros c k0 E0 O0. exfalso. destruct (sq_cache s) as [cc|] eqn:Cc.
+      * rewrite nth_error_upd in E0. destruct (Nat.eqb_spec cc c) as [<-|Hne]; cbn [andb] in E0.
+        -- destruct (Nat.ltb_spec cc (length (sq_conns s))); [inversion E0; subst; discriminate|].
+           apply nth_error_some_lt in E0. lia.
+        -- destruct (A _ _ E0 O0) as [H _]. congruence.
+      * destruct (A _ _ E0 O0) as [H _]. discriminate.
+    + exact B.
+    + exact C.
+    + exact D.
+    + exact E.
+Qed.
+
+Theorem sdq_run_inv ls : forall s s', QInv s -> sdq_run s ls = Some s' -> QInv s'.
+Proof.
+  induction ls as [|l ls IH]; intros s s' HI H; cbn [sdq_run] in H; [inversion H; subst; exact HI|].
+  destruct (sdq_step s l) as [s1|] eqn:E; [|discriminate]. eapply IH; [|exact H]. eapply sdq_step_inv; eauto.
+Qed.
+
+Theorem sdq_reachable_inv ls s : sdq_run sdq_init ls = Some s -> QInv s.
+Proof. apply sdq_run_inv. exact sdq_init_inv. Qed.
+
+Lemma sdq_close_total s : exists s', sdq_step s SqClose = Some s' /\ sq_closed s' = true.
+Proof. cbn. destruct (sq_closed s) eqn:E; eexists; split; eauto. Qed.
+
+Lemma sdq_close_idempotent s s' : sdq_step s SqClose = Some s' -> sdq_step s' SqClose = Some s'.
+Proof. cbn. destruct (sq_closed s) eqn:E; intros H; inversion H; subst; cbn; [now rewrite E|reflexivity]. Qed.
+
+Lemma sdq_run_app a : forall s s1 b, sdq_run s a = Some s1 -> sdq_run s (a ++ b) = sdq_run s1 b.
+Proof.
+  induction a as [|l a IH]; intros s s1 b H; cbn [sdq_run app] in *; [inversion H; reflexivity|].
+  destruct (sdq_step s l); [|discriminate]. now apply IH.
+Qed.
+
+(* ---- C18_no_leak_quic ---- *)
+Lemma sdq_closed_all_closed s : QInv s -> sq_closed s = true -> forall k, In k (sq_conns s) -> qc_open k = false.
+Proof.
+  intros HI Cl k Hin. destruct (In_nth_error _ _ Hin) as [c Ec].
+  destruct (qc_open k) eqn:O; auto. destruct (q_open _ HI _ _ Ec O) as [_ H]. congruence.
+Qed.
+
+Lemma sdq_no_leak ls s :
+  sdq_run sdq_init ls = Some s -> sq_closed s = true ->
+  (forall k, In k (sq_conns s) -> qc_open k = false) /\
+  sdq_open_count s = length (filter qd_holds_raw (sq_calls s)).
+Proof.
+  intros H Cl. apply sdq_reachable_inv in H. split; [now apply sdq_closed_all_closed|].
+  unfold sdq_open_count. rewrite filter_none; [reflexivity|]. now apply sdq_closed_all_closed.
+Qed.
+
+(* completing a call: enabled from every stage, leaves the tasks alone, ends with a published result;
+   when the transport is closed and the call had not yet passed its critical section the result is the error
+   and a dialled connection enters the table CLOSED (the completion step itself closes it) *)
+Lemma sdq_complete s d dd :
+  nth_error (sq_calls s) d = Some dd ->
+  (qd_stage dd = QdEnd -> qd_result dd <> None) ->
+  exists s', sdq_run s (sdq_complete_path s d) = Some s' /\
+             sq_tasks s' = sq_tasks s /\ sq_closed s' = sq_closed s /\
+             (exists dd', nth_error (sq_calls s') d = Some dd' /\ qd_stage dd' = QdEnd /\ qd_result dd' <> None /\
+                          (sq_closed s = true ->
+                           match qd_stage dd with QdDialing | QdGot _ | QdLate _ => qd_result dd' = Some None | _ => True end)) /\
+             (sq_closed s = true ->
+              match qd_stage dd with
+              | QdGot true | QdLate true => sq_conns s' = sq_conns s ++ [{| qc_open := false |}]
+              | _ => sq_conns s' = sq_conns s
+              end).
+Proof.
+  intros Ed Hend. pose proof (nth_error_some_lt _ _ _ Ed) as Hlt.
+  unfold sdq_complete_path. rewrite Ed.
+  destruct s as [cl cache call conns calls tasks]. cbn [sq_calls sq_closed sq_conns sq_tasks] in *.
+  assert (Hupd : forall x, nth_error (upd calls d x) d = Some x) by (intros; now apply nth_error_upd_eq).
+  assert (Hupd2 : forall x y, nth_error (upd (upd calls d x) d y) d = Some y)
+    by (intros; apply nth_error_upd_eq; now rewrite upd_length).
+  destruct (qd_stage dd) as [|ok|ok|r|] eqn:Sd.
+  - cbn [sdq_run sdq_step sq_calls]. rewrite Ed, Sd. cbn [sdq_set_call sq_calls sq_closed sq_cache sq_call sq_conns sq_tasks].
+    rewrite Hupd. cbn [qd_stage qd_result].
+    destruct cl; cbn [sq_calls]; rewrite Hupd2; cbn [qd_stage qd_result sdq_set_call sq_calls sq_closed sq_cache sq_call sq_conns sq_tasks].
+    + eexists. split; [reflexivity|]. cbn. repeat split; auto.
+      eexists. split; [apply nth_error_upd_eq; now rewrite !upd_length|]. cbn. repeat split; congruence.
+    + eexists. split; [reflexivity|]. cbn. repeat split; auto; try discriminate.
+      eexists. split; [apply nth_error_upd_eq; now rewrite !upd_length|]. cbn. repeat split; try congruence; try discriminate.
+  - cbn [sdq_run sdq_step sq_calls]. rewrite Ed, Sd. cbn [sq_closed].
+    destruct cl; cbn [sq_calls]; rewrite Hupd; cbn [qd_stage qd_result sdq_set_call sq_calls sq_closed sq_cache sq_call sq_conns sq_tasks].
+    + eexists. split; [reflexivity|]. cbn. repeat split; auto.
+      * eexists. split; [apply nth_error_upd_eq; now rewrite !upd_length|]. cbn. repeat split; congruence.
+      * intros _. destruct ok; reflexivity.
+    + eexists. split; [reflexivity|]. cbn. repeat split; auto; try discriminate.
+      eexists. split; [apply nth_error_upd_eq; now rewrite !upd_length|]. cbn. repeat split; try congruence; try discriminate.
+  - cbn [sdq_run sdq_step sq_calls]. rewrite Ed, Sd.
+    eexists. split; [reflexivity|]. cbn. repeat split; auto.
+    + eexists. split; [apply nth_error_upd_eq; exact Hlt|]. cbn. repeat split; congruence.
+    + intros _. destruct ok; reflexivity.
+  - cbn [sdq_run sdq_step sq_calls]. rewrite Ed, Sd.
+    eexists. split; [reflexivity|]. cbn. repeat split; auto.
+    eexists. split; [apply nth_error_upd_eq; exact Hlt|]. cbn. repeat split; congruence.
+  - cbn [sdq_run]. eexists. split; [reflexivity|]. cbn. repeat split; auto.
+    exists dd. repeat split; auto.
+Qed.
+
+(* ---- C18_quic_waiters_woken: every waiter of a call is woken by the call's completion ---- *)
+Lemma sdq_waiters_woken s t k d :
+  QInv s -> nth_error (sq_tasks s) t = Some k -> qt_stage k = QsWait d ->
+  exists s' s'' k', sdq_run s (sdq_complete_path s d) = Some s' /\
+                    sdq_step s' (SqWake t) = Some s'' /\
+                    nth_error (sq_tasks s'') t = Some k' /\
+                    ((exists c, qt_stage k' = QsHas c true) \/ (qt_stage k' = QsDone /\ qt_res k' <> None)) /\
+                    (sq_closed s = true -> qt_res k = None -> qt_res k' = Some false \/ exists c, qt_stage k' = QsHas c true /\ sdq_conn_open s'' c = false /\ qt_res k' = None).
+Proof.
+  intros HI Ek Sk.
+  pose proof (Forall_nth_error _ _ _ _ (q_tasks _ HI) Ek) as Tk. unfold qtask_inv in Tk. rewrite Sk in Tk.
+  destruct (nth_error (sq_calls s) d) as [dd|] eqn:Ed; [|apply nth_error_None in Ed; lia].
+  pose proof (Forall_nth_error _ _ _ _ (q_calls _ HI) Ed) as (D1 & _).
+  destruct (sdq_complete s d dd Ed D1) as (s' & Hrun & Htasks & Hcl & (dd' & Ed' & Sd' & Rd' & _) & _).
+  assert (HI' : QInv s') by (eapply sdq_run_inv; eauto).
+  pose proof (nth_error_some_lt _ _ _ Ek) as Hlt.
+  exists s'. cbn [sdq_step]. rewrite Htasks, Ek, Sk, Ed'.
+  destruct (qd_result dd') as [[c|]|] eqn:R; [| |congruence].
+  - eexists. eexists. split; [exact Hrun|]. split; [reflexivity|]. cbn. rewrite Htasks.
+    split; [apply nth_error_upd_eq; exact Hlt|]. split; [left; eexists; reflexivity|].
+    intros Cl Rk. right. exists c. cbn. repeat split; auto.
+    unfold sdq_conn_open; cbn. destruct (nth_error (sq_conns s') c) as [kc|] eqn:Ec; auto.
+    destruct (qc_open kc) eqn:O; auto. destruct (q_open _ HI' _ _ Ec O) as [_ H]. congruence.
+  - eexists. eexists. split; [exact Hrun|]. split; [reflexivity|]. cbn. rewrite Htasks.
+    split; [apply nth_error_upd_eq; exact Hlt|]. split.
+    + right. cbn. split; auto. destruct (qt_res k); cbn; congruence.
+    + intros _ Rk. left. cbn. now rewrite Rk.
+Qed.
+
+(* ---- fail, not hang (QUIC): after Close every caller that is still waiting reaches an error by enabled steps
+   (complete the call it waits for, wake, I/O on the closed connection); new exchanges fail at once ---- *)
+Lemma sdq_result_set_task s t x : t < length (sq_tasks s) -> sdq_result (sdq_set_task s t x) t = qt_res x.
+Proof. intros H. unfold sdq_result; cbn. now rewrite nth_error_upd_eq. Qed.
+
+Lemma sdq_fail_not_hang s t k :
+  QInv s -> sq_closed s = true -> nth_error (sq_tasks s) t = Some k -> qt_res k = None ->
+  exists ls s', sdq_run s ls = Some s' /\ sdq_result s' t = Some false.
+Proof.
+  intros HI Cl Ek R. pose proof (nth_error_some_lt _ _ _ Ek) as Hlt.
+  pose proof (Forall_nth_error _ _ _ _ (q_tasks _ HI) Ek) as Tk. unfold qtask_inv in Tk.
+  assert (Hget : forall s0 k0, sq_closed s0 = true -> nth_error (sq_tasks s0) t = Some k0 -> qt_stage k0 = QsStart -> qt_res k0 = None ->
+             exists s1, sdq_step s0 (SqGet t) = Some s1 /\ sdq_result s1 t = Some false).
+  { intros s0 k0 C0 E0 S0 R0. cbn. rewrite E0, S0, C0. eexists. split; [reflexivity|].
+    rewrite sdq_result_set_task by (eapply nth_error_some_lt; eauto). cbn. now rewrite R0. }
+  assert (Hio : forall s0 k0 c f, sq_closed s0 = true -> nth_error (sq_tasks s0) t = Some k0 -> qt_stage k0 = QsHas c f ->
+             qt_res k0 = None -> sdq_conn_open s0 c = false ->
+             exists ls s1, sdq_run s0 ls = Some s1 /\ sdq_result s1 t = Some false).
+  { intros s0 k0 c f C0 E0 S0 R0 O0. pose proof (nth_error_some_lt _ _ _ E0) as Hl0.
+    destruct (negb f && (qt_retry k0 <? 5)) eqn:Rt.
+    - set (s1 := sdq_set_task s0 t {| qt_stage := QsStart; qt_res := None; qt_retry := S (qt_retry k0) |}).
+      destruct (Hget s1 {| qt_stage := QsStart; qt_res := None; qt_retry := S (qt_retry k0) |}) as (s2 & H2 & R2); auto.
+      { unfold s1; cbn. now apply nth_error_upd_eq. }
+      assert (H1 : sdq_step s0 (SqIoClosed t) = Some s1)
+        by (cbn [sdq_step]; rewrite E0, S0, O0; unfold sdq_io_fail; rewrite R0, Rt; reflexivity).
+      exists [SqIoClosed t; SqGet t], s2. cbn [sdq_run]. rewrite H1, H2. split; auto.
+    - exists [SqIoClosed t]. eexists. cbn [sdq_run sdq_step]. rewrite E0, S0, O0. unfold sdq_io_fail. rewrite R0, Rt.
+      split; [reflexivity|]. now rewrite sdq_result_set_task. }
+  destruct (qt_stage k) as [|d|c f|] eqn:Sk.
+  - destruct (Hget s k Cl Ek Sk R) as (s1 & H1 & R1). exists [SqGet t], s1. cbn [sdq_run]. rewrite H1. auto.
+  - destruct (sdq_waiters_woken s t k d HI Ek Sk) as (s' & s'' & k' & Hrun & Hwake & Ek' & _ & Hcl).
+    assert (Cl'' : sq_closed s'' = true).
+    { destruct (nth_error (sq_calls s) d) as [dd|] eqn:Ed; [|apply nth_error_None in Ed; lia].
+      pose proof (Forall_nth_error _ _ _ _ (q_calls _ HI) Ed) as (D1 & _).
+      destruct (sdq_complete s d dd Ed D1) as (s0 & Hrun0 & _ & Hcl0 & _). rewrite Hrun in Hrun0. inversion Hrun0; subst s0.
+      cbn in Hwake. destr Hwake; inversion Hwake; subst; cbn; congruence. }
+    destruct (Hcl Cl R) as [Hf|(c & Sc & Oc & Rc)].
+    + exists (sdq_complete_path s d ++ [SqWake t]), s''. rewrite (sdq_run_app _ _ _ _ Hrun). cbn [sdq_run]. rewrite Hwake.
+      split; auto. unfold sdq_result. now rewrite Ek'.
+    + destruct (Hio s'' k' c true Cl'' Ek' Sc Rc Oc) as (ls & s3 & H3 & R3).
+      exists (sdq_complete_path s d ++ SqWake t :: ls), s3. rewrite (sdq_run_app _ _ _ _ Hrun). cbn [sdq_run]. rewrite Hwake. auto.
+  - apply (Hio s k c f Cl Ek Sk R).
+    unfold sdq_conn_open. destruct (nth_error (sq_conns s) c) as [kc|] eqn:Ec; auto.
+    destruct (qc_open kc) eqn:O; auto. destruct (q_open _ HI _ _ Ec O) as [_ H]. congruence.
+  - congruence.
+Qed.
+
+Lemma sdq_new_exchange_fails s :
+  sq_closed s = true ->
+  exists s', sdq_run s [SqSpawn; SqGet (length (sq_tasks s))] = Some s' /\
+             sdq_result s' (length (sq_tasks s)) = Some false.
+Proof.
+  intros Cl. cbn [sdq_run sdq_step sq_tasks sq_closed]. rewrite nth_error_app2 by lia. rewrite Nat.sub_diag.
+  cbn [nth_error qt_stage]. rewrite Cl. eexists. split; [reflexivity|].
+  rewrite sdq_result_set_task by (cbn; rewrite app_length; cbn; lia). reflexivity.
+Qed.
+
+Lemma sdq_quiesce_refines h fuel : forall s, exists ls, sdq_run s ls = Some (sdq_quiesce h fuel s).
+Proof.
+  induction fuel as [|f IH]; intros s; cbn [sdq_quiesce]; [exists []; reflexivity|].
+  destruct (sdq_first_internal h s) as [l|]; [|exists []; reflexivity].
+  destruct (sdq_step s l) as [s'|] eqn:E; [|exists []; reflexivity].
+  destruct (IH s') as [ls H]. exists (l :: ls). cbn [sdq_run]. now rewrite E.
+Qed.
+
+Lemma sdq_big_refines h s e s' : sdq_big h s e = Some s' -> exists ls, sdq_run s ls = Some s'.
+Proof.
+  unfold sdq_big. destruct (sdq_ext_labels s e) as [l0|]; [|discriminate].
+  destruct (sdq_run s l0) as [s1|] eqn:E; [|discriminate].
+  intros H. inversion H; subst. destruct (sdq_quiesce_refines h big_fuel s1) as [ls Hl].
+  exists (l0 ++ ls). now rewrite (sdq_run_app _ _ _ _ E).
+Qed.
+
+Fixpoint sdq_bigs (h : bool) (s : sdq_state) (es : list xev) : option sdq_state :=
+  match es with
+  | [] => Some s
+  | e :: tl => match sdq_big h s e with Some s' => sdq_bigs h s' tl | None => None end
+  end.
+
+Lemma sdq_bigs_refines h es : forall s s', sdq_bigs h s es = Some s' -> exists ls, sdq_run s ls = Some s'.
+Proof.
+  induction es as [|e es IH]; intros s s' H; cbn in H; [inversion H; exists []; reflexivity|].
+  destruct (sdq_big h s e) as [s1|] eqn:E; [|discriminate].
+  destruct (sdq_big_refines _ _ _ _ E) as [l1 H1]. destruct (IH _ _ H) as [l2 H2].
+  exists (l1 ++ l2). now rewrite (sdq_run_app _ _ _ _ H1).
+Qed.
